@@ -140,4 +140,66 @@ Proof. reflexivity. Qed.
 Lemma swap_guard_flips : guard_flips gen_swap_guard.
 Proof. intros a b. destruct a, b; vm_compute; congruence. Qed.
 
-Definition gen_validate := validate gen_num_buckets gen_place_cases gen_kind_names gen_object_names gen_tag_names gen_swap_guard.
+(* ---------------------------------------------------------------- the filter-op flag table (ir/filter_op.gen.go) *)
+(* every op whose DSL form takes a variable (m[$Value]...) has flagHasVar: newFilter / newBinaryExprFilter record the variable of
+   every such node, so checkBoundVars sees every variable a Where clause mentions *)
+Lemma optab_flags_complete : flags_complete gen_optab = true.
+Proof. vm_compute. reflexivity. Qed.
+
+(* flagHasVar only on ops whose $Value is a variable name held as a string: filter.Value.(string) in newFilter cannot fail *)
+Lemma optab_flags_sound : flags_sound gen_optab = true.
+Proof. vm_compute. reflexivity. Qed.
+
+(* binary ops have the two operands newBinaryExprFilter indexes, literal ops hold a string or an int64, the three classes are disjoint *)
+Lemma optab_flags_shape : flags_shape gen_optab = true.
+Proof. vm_compute. reflexivity. Qed.
+
+(* the table is a function of the op: names distinct, numbers dense from 0 (the constants are the indices the generator wrote) *)
+Lemma optab_names_distinct : nodupb (map op_name gen_optab) = true.
+Proof. vm_compute. reflexivity. Qed.
+Lemma optab_numbers_dense : map op_num gen_optab = seq 0 (List.length gen_optab).
+Proof. vm_compute. reflexivity. Qed.
+
+(* the flags are read through the three accessors only, and by the loader exactly at the sites the model was written against *)
+Lemma flag_consts_pinned : gen_flag_consts = ["flagIsBinaryExpr uint64 = 1 << iota"; "flagIsBasicLit"; "flagHasVar"].
+Proof. reflexivity. Qed.
+Lemma flag_accessors_pinned : gen_flag_accessors =
+  ["HasVar: return filterOpFlags[e.Op]&flagHasVar != 0";
+   "IsBasicLit: return filterOpFlags[e.Op]&flagIsBasicLit != 0";
+   "IsBinaryExpr: return filterOpFlags[e.Op]&flagIsBinaryExpr != 0"].
+Proof. reflexivity. Qed.
+Lemma flag_uses_pinned : gen_flag_uses =
+  ["newFilter: filter.HasVar()";
+   "newFilter: filter.IsBinaryExpr()";
+   "newBinaryExprFilter: filter.Args[0].IsBasicLit()";
+   "newBinaryExprFilter: filter.Args[1].IsBasicLit()";
+   "newBinaryExprFilter: operand.HasVar()"].
+Proof. reflexivity. Qed.
+
+(* newFilter: records the variable of a flagged node first, hands binary ops over, recurses through Not with the same table of
+   variables, records the second variable of Type.IdenticalTo by hand *)
+Lemma newFilter_prologue_pinned : gen_newFilter_prologue =
+  ["if filter.HasVar() { info.Vars[filter.Value.(string)] = struct{}{} }";
+   "if filter.IsBinaryExpr() { return l.newBinaryExprFilter(filter, info) }";
+   "result := matchFilter{src: filter.Src}"].
+Proof. reflexivity. Qed.
+Lemma newFilter_not_case_pinned : gen_newFilter_not_case =
+  ["x, err := l.newFilter(filter.Args[0], info)";
+   "if err != nil { return result, err }";
+   "result.fn = makeNotFilter(result.src, x)"].
+Proof. reflexivity. Qed.
+Lemma newFilter_identical_case_pinned : gen_newFilter_identical_case =
+  ["lhsVarname := filter.Value.(string)";
+   "rhsVarname := filter.Args[0].Value.(string)";
+   "info.Vars[rhsVarname] = struct{}{}";
+   "result.fn = makeTypesIdenticalFilter(result.src, lhsVarname, rhsVarname)"].
+Proof. reflexivity. Qed.
+
+(* every op that takes a variable and is a predicate has a case in newFilter's switch; the four value-typed ones are the left
+   operands newBinaryExprFilter knows (its pinned body above) *)
+Lemma var_ops_handled :
+  map op_name (filter (fun o => mentions_var o && negb (op_handled o)) gen_optab) = ["VarText"; "VarLine"; "VarValueInt"; "VarTypeSize"].
+Proof. vm_compute. reflexivity. Qed.
+
+Definition gen_validate := validate gen_num_buckets gen_place_cases gen_kind_names gen_object_names gen_tag_names gen_swap_guard gen_optab.
+Definition gen_validate_spec := validate_spec gen_num_buckets gen_place_cases gen_kind_names gen_object_names gen_tag_names gen_swap_guard.
